@@ -193,3 +193,58 @@ claim("C09", "TLC model checking of spec/LikPool.tla (all schedules of <= 4 keys
       "repeat / fresh-process (PYTHONHASHSEED) / num_threads identity on interned ids",
       "every observed run decided by TLC; schedules exhaustive in the small scope",
       TB)
+
+claim("C10", "TLC model checking of spec/InsideOutside.tla (inside / outside passes with the code's packed triangular "
+      "layout and reduceat sums over abstract integer tables vs brute-force marginals and normaliser; all topologies "
+      "<= 4 leaves, all schedules) + replay of explored instances into the real BeliefPropagation via table doubles "
+      "in both probability spaces + inside_outside with real priors / Poisson likelihoods vs a mirror of the spec's "
+      "Marginal / Normaliser synchronised with TLC in the same run",
+      "exhaustive over small tables / grids within the stated scope; every replayed instance compared with TLC's "
+      "exact rationals (rtol 1e-12 linear, 1e-9 log)",
+      TB + "; guard proper_model (all-zero rows are a ValueError, allowed by C35)")
+claim("C11", "TLC model checking of spec/IOOrder.tla (code-derived traversals admissible for every DAG x renumbering x "
+      "re-timing), spec/InsideOutside.tla (confluence over schedules / permutations), spec/IOMax.tla (edge-order "
+      "freedom) + replay of orders and message sets into the real iterators and outside_pass + metamorphic renumber / "
+      "retime pairs on inside_outside and maximization (rtol 1e-9, arg-max ties guarded)",
+      "traversal admissibility exhaustive for DAGs with <= 3 non-sample nodes; real pairs sampled",
+      TB + "; multi-parent span scaling not modelled arithmetically in TLC")
+claim("C12", "TLC model checking of spec/ProbSpace.tla (commuting diagram Exp o LogOp = LinOp o Exp for every primitive "
+      "over value classes with IEEE conventions; +inf kept as a refuted deviation = the statement's overflow guard) + "
+      "replay of every case into both Likelihoods classes + guarded linear / log run pairs of both methods",
+      "exhaustive over value-class combinations (35k cases); run pairs compared at rtol 1e-7 under the statement's "
+      "no-underflow guard",
+      TB)
+claim("C13", "TLC model checking of spec/IOMax.tla (literal outside_maximization loop vs the arg-max-set rule, Ordered, "
+      "GridPoint, EdgeOrderFree on multi-parent DAGs) + replay into the real outside_maximization via a Poisson shim "
+      "+ rule check on real maximization fits with a TLC-synchronised mirror",
+      "exhaustive at grid 2, simulated at grid 3; every real node's choice must be a grid point, ordered along "
+      "edges and inside the arg-max set computed from the real inside values",
+      TB)
+claim("C38", "TLC model checking of spec/InsideOutside.tla / IOOrder.tla with both readings of 'oldest root' (the "
+      "implemented id-based reading is refuted) + replay through table doubles, a message spy on outside_pass and "
+      "renumber pairs on the public inside_outside",
+      "the statement is decided on the code by three independent legs; the violation on the unchanged tree is a "
+      "recorded open finding (the repository's own test pins the id-based behaviour)",
+      TB)
+claim("C28", "TLC model checking of spec/Preprocess.tla (code-shaped interval computation vs Admissible / DesignCoverage "
+      "over all site sets x minimum_gap x erase_flanks; declarative simplified output per unit cell) + replay of "
+      "generated / simulated instances into preprocess_ts + TLC trace validation of provenance-recorded "
+      "delete_intervals",
+      "exhaustive in the bounded TSGen scope; every real call decided against TLC-emitted values and by TLC on "
+      "recorded intervals",
+      TB + "; 'no gap' read for non-sample nodes; genotypes = allelic states")
+claim("C29", "TLC model checking of spec/SplitDisjoint.tla (segment labelling, copy allocation, relabelling, mutation "
+      "sweep vs TreesPreserved / Contiguous / LeftmostKeepsId / MutationsFollow / GenotypesKept / Idempotent; "
+      "pre-repair variant refuted with its exact crash class) + exact replay into split_disjoint_nodes",
+      "exhaustive in the bounded scope (<= 5 intervals, >= 3 pieces); copy ids abstracted via node time",
+      TB)
+claim("C30", "TLC model checking of spec/Unary.tla (edge-diff detector state machine and per-tree detector vs the "
+      "declarative unary statement, arbitrary masks, historical / internal samples) + replay into both detectors and "
+      "accept / reject of variational_gamma / inside_outside / maximization / build_prior_grid",
+      "exhaustive in the bounded scope; only the unary-specific ValueError is judged",
+      TB)
+claim("C31", "TLC model checking of spec/SiteTimes.tla (running-max loop vs the documented definition, exact doubled / "
+      "squared arithmetic, mn metadata, errors, historical bound) + replay into sites_time_from_ts and "
+      "add_sampledata_times (tsinfer SampleData)",
+      "exhaustive in the bounded scope; equality (geometric rel 1e-12)",
+      TB)
